@@ -1044,6 +1044,177 @@ def strip(h):
             if k in h}
 
 
+# ---------------------------------------------------------------------------------------
+# the wrappers as the library itself wires them: BufferedIOBaseSource.open
+
+class _MiniaudioShim:
+    """Stands in for `miniaudio` inside audio_source: an identity "decoder" whose output is
+    exactly what it pulls from the StreamableSource it is given."""
+
+    def __init__(self, real, capture, lock):
+        self._real, self._capture, self._lock = real, capture, lock
+        shim = self
+
+        class WavFileReadStream:
+            def __init__(self, source, *a, **k):
+                self.source = source
+
+            def read(self, n):
+                with shim._lock:
+                    data = bytes(self.source.read(n))
+                    shim._capture.extend(data)
+                    return data
+
+        self.WavFileReadStream = WavFileReadStream
+
+    def stream_any(self, source, **kwargs):
+        return source
+
+    def __getattr__(self, name):
+        return getattr(self._real, name)
+
+
+def run_factory(f):
+    """One scenario through the real BufferedIOBaseSource.open: the metadata probe performs
+    f["probe"] (reads / seeks on the file object the factory hands to get_metadata), the
+    factory rewinds and unprotects, the decoder then pulls the stream to its end.
+    Returns (probe tokens, bytes the decoder received, error or None)."""
+    from pyatv.protocols.raop import audio_source as A
+    S = pat(f["seed"], 0, f["srclen"])
+    src = ScriptedSource(S, f["ks"])
+    capture, lock, tokens = bytearray(), threading.Lock(), []
+    saved = {k: getattr(A, k) for k in ("miniaudio", "get_metadata")}
+
+    async def fake_get_metadata(file):
+        def probe():
+            for op in f["probe"]:
+                try:
+                    if op[0] == "read":
+                        tokens.append("d:" + digest(bytes(file.read(op[1]))))
+                    else:
+                        tokens.append("p:%d" % file.seek(op[1]))
+                except Exception as e:
+                    tokens.append("err:" + type(e).__name__)
+        await asyncio.get_event_loop().run_in_executor(None, probe)
+        return A.EMPTY_METADATA
+
+    async def scenario():
+        loop = asyncio.get_event_loop()
+        source = FakeRaw(src) if f["kind"] == "file" else make_stream_reader(src, loop)
+        inst = await A.BufferedIOBaseSource.open(source, 44100, 2, 2)
+        await inst.close()          # its own buffering task has not started yet: we are the consumer
+        for _ in range(2 * len(S) // max(1, f["chunk"]) + 64):
+            data = await loop.run_in_executor(None, inst.reader.read, f["chunk"])
+            if not data:
+                break
+
+    loop = asyncio.new_event_loop()
+    error = None
+    A.miniaudio = _MiniaudioShim(saved["miniaudio"], capture, lock)
+    A.get_metadata = fake_get_metadata
+    try:
+        loop.run_until_complete(asyncio.wait_for(scenario(), 60))
+    except Exception as e:
+        error = type(e).__name__ + ": " + str(e)[:120]
+    finally:
+        for k, v in saved.items():
+            setattr(A, k, v)
+        try:
+            loop.run_until_complete(loop.shutdown_default_executor())
+        except Exception:
+            pass
+        loop.close()
+    return tokens, bytes(capture), error
+
+
+def factory_model_lines(f, ndrain):
+    from pyatv.protocols.raop import audio_source as A
+    kind = "bio" if f["kind"] == "file" else "ssw"
+    lines = ["wreset %s %d %d 1 %d %d %s" % (kind, A.BUFFER_SIZE, A.HEADROOM_SIZE, f["seed"], f["srclen"],
+                                             ",".join(map(str, f["ks"])) or "-")]
+    lines.append("seek 0")                              # get_buffered_io_metadata: buffer.seek(0) != 0 ?
+    lines += [model_line(op) for op in f["probe"]]
+    lines += ["seek 0", "seek 0", "prot 0", "read 44"]  # finally: seek(0); seek(before); then open() goes on
+    lines += ["read %d" % f["chunk"]] * ndrain
+    return lines
+
+
+def gen_factory(rng):
+    from pyatv.protocols.raop import audio_source as A
+    B, H = A.BUFFER_SIZE, A.HEADROOM_SIZE
+    srclen = 44 + 4 * rng.choice([0, 10, 3000, H // 4, H // 4 + 500, B // 4 + 1000, B // 2 + 777])
+    probe, pos = [], 0
+    for _ in range(rng.randint(0, 7)):
+        if rng.chance(0.65):
+            n = rng.choice([1, 10, 100, 4096, 8192, H - 1, H, H + 1, 40000, B, B + 5, max(1, H - pos), max(1, H - pos + 1)])
+            probe.append(["read", n])
+            pos += n
+        else:
+            p = rng.choice([0, 0, 1, 100, 4096, H - 1, H, pos, max(0, pos - 1)])
+            probe.append(["seek", p])
+            pos = p
+    nks = rng.choice([0, 0, 8, 64])
+    ks = [rng.choice([10 ** 6, 10 ** 6, 8191, 4095, rng.randint(0, 20000)]) for _ in range(nks)]
+    return {"kind": rng.choice(["file", "stream"]), "seed": rng.randint(0, 255), "srclen": srclen, "ks": ks,
+            "probe": probe, "chunk": rng.choice([1056, 1056, 4096, 8192, H, 44])}
+
+
+FACTORY_WITNESSES = [
+    # the probe reads past the headroom (32 KiB) and the factory rewinds: nothing may be lost
+    {"kind": "file", "seed": 1, "srclen": 44 + 4 * 20000, "ks": [], "probe": [["read", 40000], ["seek", 100], ["read", 10]],
+     "chunk": 1056},
+    {"kind": "stream", "seed": 2, "srclen": 44 + 4 * 20000, "ks": [8191] * 8,
+     "probe": [["read", 32768], ["read", 1], ["seek", 0], ["read", 70000]], "chunk": 4096},
+]
+
+
+def check_factories(ctx, fs):
+    from pyatv.protocols.raop import audio_source as A
+    results, lines, starts = [], [], []
+    for f in fs:
+        tokens, got, error = run_factory(f)
+        ndrain = (len(got) - 44) // max(1, f["chunk"]) + 3 if len(got) >= 44 else 0
+        results.append((tokens, got, error, ndrain))
+        starts.append(len(lines))
+        lines += factory_model_lines(f, ndrain)
+    answers = ctx.lean(lines) if lines else []
+    for f, (tokens, got, error, ndrain), start in zip(fs, results, starts):
+        S = pat(f["seed"], 0, f["srclen"])
+        case = dict(f, target="factory")
+        past_headroom = sum(op[1] for op in f["probe"] if op[0] == "read") >= A.HEADROOM_SIZE
+        ctx.case(["factory", f], past_headroom, sample=case if len(f["probe"]) <= 4 else None)
+        ctx.note("target:factory-" + f["kind"])
+        if past_headroom:
+            ctx.note("event:probe-past-headroom")
+        # correspondence: the probe's answers and the decoder's stream against the model
+        model_probe = [a.split(" ")[0] for a in answers[start + 2:start + 2 + len(f["probe"])]]
+        ctx.validated(len(tokens) + 1)
+        if tokens != model_probe:
+            ctx.disagree(case, tokens, model_probe, where="factory probe")
+        first = start + 2 + len(f["probe"]) + 3
+        model_stream = [a.split(" ")[0] for a in answers[first:first + 1 + ndrain]]
+        if error is None and model_stream and not model_stream[0].startswith("d:"):
+            ctx.disagree(case, "stream", model_stream[:2], where="factory stream")
+        # direct oracle: the decoder must receive the whole source, from its first byte
+        if error is not None:
+            ctx.fail("factory:exception", case, error, "the factory opens the stream and the decoder can read it",
+                     "BufferedIOBaseSource.open / reading raised " + error)
+        elif got != S:
+            n = next((i for i, (a, b) in enumerate(zip(got, S)) if a != b), min(len(got), len(S)))
+            kind = "premature-eof" if n == len(got) else "read-mismatch"
+            ctx.fail("factory:" + kind, case, "decoder received %d bytes, first difference at offset %d (%s)"
+                     % (len(got), n, digest(got[n:n + 8])), "exactly the %d source bytes, in order" % len(S),
+                     "after the metadata probe %r the decoder did not receive the source from its first byte" % (f["probe"],))
+        # the probe itself also reads the stream: reference cursor over its reads / seeks
+        cur = 0
+        for op, tok in zip(f["probe"], tokens):
+            if op[0] == "seek":
+                if tok == "p:%d" % op[1]:
+                    cur = op[1]
+            elif tok.startswith("d:"):
+                pass    # digest only; the byte-level check of probe reads is done by the wrapper histories
+
+
 def run(ctx, only=None):
     rng = ctx.rng
     env = Env()
@@ -1068,6 +1239,9 @@ def run(ctx, only=None):
         check_histories(ctx, env, hs, "sync")
     finally:
         env.close()
+    # the wiring the library itself performs (real loop, real executor threads)
+    gf = rng.fork("factory")
+    check_factories(ctx, [dict(w) for w in FACTORY_WITNESSES] + [gen_factory(gf) for _ in range(ctx.scale(40, 300))])
     # a sample of stream-reader histories through a real event-loop thread
     env = Env(thread_hop=True)
     try:
@@ -1084,7 +1258,14 @@ def widen(ctx):
     run(ctx)
 
 
+def factory_fails(f):
+    tokens, got, error = run_factory(f)
+    return error is not None or got != pat(f["seed"], 0, f["srclen"])
+
+
 def replay(ctx, failure):
+    if failure["case"].get("target") == "factory":
+        return factory_fails(failure["case"])
     c2 = type(ctx)(ctx.prop, ctx.tier, ctx.seed, ctx.driver.driver_rel)
     env = Env()
     try:
@@ -1099,6 +1280,17 @@ def shrink(ctx, failure):
     """Greedy: drop operations / oracle entries while the same kind of failure remains."""
     want = failure["sig"].split(":", 1)[1]
     h = dict(failure["case"])
+    if h.get("target") == "factory":
+        changed = True
+        while changed:      # drop probe operations while the decoder still misses bytes
+            changed = False
+            for i in range(len(h["probe"])):
+                c = dict(h, probe=h["probe"][:i] + h["probe"][i + 1:])
+                if factory_fails(c):
+                    h, changed = c, True
+                    break
+        return dict(failure, case=h, what="shrunk: " + failure["what"].split(" the decoder")[0].rsplit("probe", 1)[0]
+                    + "probe %r the decoder did not receive the source from its first byte" % (h["probe"],))
 
     def fails(c):
         env = Env()
